@@ -85,7 +85,7 @@ def _():
 
 @witness("C18", "imsc-tt-extent-overflow")
 def _():
-    return _run("imsc", TT % (b'tts:extent="1e400px 1px"', b"<body/>"), 0, "OverflowError", "ExtentAttribute")
+    return _run("imsc", TT % (b'tts:extent="' + b"9" * 400 + b'px 1px"', b"<body/>"), 0, "OverflowError", "ExtentAttribute")
 
 @witness("C18", "imsc-content-inside-set")
 def _():
